@@ -1,4 +1,5 @@
 // C08 — every emitted frame is spec-conformant and round-trips through the library's own receiver.
+#include "shims/pp_probes.h"
 #include "props/regp.hpp"
 using namespace rx;
 
@@ -110,6 +111,7 @@ static Bytes gen_payload(vp::Rng &r, size_t n) {
 
 static void run() {
     auto &a = vp::args();
+    if (a.shard == 0) vp::pp_phase(vp_pp_regp, "regp");
     vp::CaseScope scope([] { return ser_case(g_cur); });
     vp::stats().rule = "enum/random: all 18 emit entry points (4 requests, ACK with/without payload, 11 error responses, 2 meta) x {serial, tcp} x {8, 16}-bit memory x request kinds, with addresses and "
                        "sequence numbers at the edges, payloads rich in SLIP control octets (octet payloads at even and odd addresses), sinks that take whole calls / one octet per call / short writes mixed with EINTR, sequence numbers searched so that the header checksum is 0x0000/0xffff/SLIP control octets, a SLIP control octet behind every run length 0..300 of ordinary payload octets, total lengths across the varint boundaries 127/128 and 16383/16384 and payloads across 2^16 and 2^17 octets; oracle = reference encoder octets + "
@@ -209,6 +211,7 @@ static void run() {
     }
 }
 static bool replay(const std::string &text) {
+    if (text.rfind("pp ", 0) == 0) { vp::pp_phase(vp_pp_regp, "regp"); return vp::stats().failures.empty(); }
     auto w = vp::split(vp::lines(text).at(0));
     if (w.size() < 12 || w[0] != "emit") return false;
     Case c{atoi(w[1].c_str()), (bool)atoi(w[2].c_str()), (bool)atoi(w[3].c_str()), (bool)atoi(w[4].c_str()), (bool)atoi(w[5].c_str()), (uint16_t)strtoul(w[6].c_str(), 0, 10), (uint32_t)strtoul(w[7].c_str(), 0, 10),
